@@ -128,6 +128,7 @@ type Exec struct {
 	acc        map[*Cell]*accessRec
 	macc       map[*MapObj]*Cell
 	facts      map[*Term]bool
+	onceDone   map[*Cell]bool
 }
 
 type forkKey struct {
